@@ -9,7 +9,7 @@ BIN=$H/target/${VERIF_PROFILE:-sim}/a10sim
 cd $H && cargo build --offline --profile ${VERIF_PROFILE:-sim} >/dev/null 2>&1 || { echo "build failed"; exit 2; }
 out=$(mktemp -d)
 rc=0
-for s in life cq blocked fd restart pool teardown composite build inotify mt-sq mt-life mt-wake mt-pool mt-teardown; do
+for s in life cq blocked fd restart pool pool-cross teardown composite build inotify mt-sq mt-life mt-wake mt-pool mt-teardown; do
     n=$N; case $s in inotify) n=$((N/10));; mt-*) n=$((N/4));; esac
     for W in 16 3; do
         for ((w=0; w<W; w++)); do
